@@ -4,6 +4,11 @@ import Hertz.Proofs.RespTrailers
 import Hertz.Proofs.RespBodiless
 import Hertz.Proofs.ReqDecodes
 import Hertz.Proofs.Exchange
+import Hertz.Proofs.RespStream
+import Hertz.Proofs.RespInterim
+import Hertz.Model.Multipart
+import Hertz.Spec.Multipart
+import Hertz.Proofs.Multipart
 /-!
 # C11 — client requests reach the server intact and responses come back intact
 
@@ -105,6 +110,13 @@ TODO-OPEN (not proved as theorems; evaluated per explored case by the spec step)
   normalised name), values with SP/HTAB at the ends (the reader trims them): excluded by `wfResp`;
 * the hijacked chunked writer (`Resp.writerWire`) as a body source of `WResp` (its wire equals
   `chunkedWire` of the non-empty writes; C04 `writer_body_decodes` covers the strict reader).
+* X11 (streaming mode / interim responses / multipart writer, theorems at the end of this file): `101` with
+  `Connection: Upgrade` (the connection is handed to the application) and the automatic switch to streaming for
+  `text/event-stream` responses of unknown length are not modelled; the second stage of `req.handleMultipart`
+  (`ReadForm` + `MarshalMultipartForm`, map order) is `mime/multipart`'s; `MultipartRT.Clean.content` is stated with the
+  decoder's own first-occurrence function (implied by "no CR in the boundary and `CRLF--boundary` not a substring of the
+  content", not proved); the prefetched length over the limit and drain-or-close of a chunked rest are parameters of the
+  model checked for admissibility per case, not predicted.
 Observed, outside the property (C05 covers CR/LF only): NUL and other control bytes in header values
 set by the application are written verbatim; net/http refuses such a request.
 -/
@@ -528,5 +540,318 @@ example : ({ appSkip := true } : Exchange.Req).retryable = true ∧ Exchange.Sel
 /-- non-vacuity: the refused oversize answer and the small one, each as if alone -/
 example : (Exchange.run { maxBody := 3 } {} [({}, exBig), ({}, exSmall)]).map (·.2) =
     [Exchange.alone { maxBody := 3 } {} exBig, Exchange.alone { maxBody := 3 } {} exSmall] := by decide +kernel
+
+/-! ## X11 part 1 — streaming mode (`client.WithResponseBodyStream(true)`, `Model/Http1/RespStream.lean`)
+
+`streamResponse dn maxBody e skip s p c`: `ReadHeaders`, the prefetch of `ReadBodyWithStreaming` (`p` bytes: fixed by
+the code when the declared length is within the limit, any admissible value `prefetchOk` otherwise), the stream
+object (`bodyStream`, the C14 model) read by the caller `c` (buffer size, stop point), and where `skipRest` leaves
+the connection.  The reference is the BUFFERED reader without a size limit (`readResponse dn 0`): in streaming mode
+`MaxResponseBodySize` only bounds the prefetch (`stream_mode_limit_not_enforced`). -/
+
+open Hertz.H1.RespStream Hertz.H1.Stream in
+/-- **streaming = buffered, `Content-Length` bodies**: for EVERY byte string `s` the buffered reader accepts with a
+`Content-Length` head (after an interim `100 Continue` or not: `ReadHeaders` is shared), whatever the limit, the
+prefetched amount `p` (not beyond the declared length) and the caller's read pattern `c`: the stream exists, no read
+fails, the bytes read are the first `stopAfter` bytes of the body buffered mode returns, EOF is reported only when all
+of the body was read and always when the caller asks for more, the head is the buffered one before
+`SetContentLength`, and `skipRest` leaves the connection exactly where buffered mode does (`r.rest`). -/
+theorem stream_mode_same_response (dn : Bool) (maxBody : Nat) (e : End) (s : Bytes) (p : Nat) (c : Consume)
+    (hd : RespHead) (s1 : Bytes) (r : Result)
+    (hh : readHeaders dn e s = .ok (hd, s1)) (hb : readResponse dn 0 e s = .ok r)
+    (hs : mustSkipCL hd.status = false) (hcl : 0 ≤ hd.cl) (hp : p ≤ hd.cl.toNat) :
+    ∃ o, streamResponse dn maxBody e false s p c = .ok o ∧ SameAsBuffered r c o ∧ o.after = .resync r.rest := by
+  unfold readResponse at hb; rw [hh] at hb
+  exact stream_same_fixed dn maxBody e s p c hd s1 r hh hb hs hcl hp
+
+open Hertz.H1.RespStream Hertz.H1.Stream in
+/-- non-vacuity: `exFixed` (body `hello`) followed by `HT`, limit 3, four bytes prefetched, the caller reads 2+2 bytes
+and stops: `hell`, no EOF; reading 100: `hello` and EOF -/
+example : (streamResponse false 3 .stall false (H1.RT.respWire H1.RT.exFixed ++ [72, 84]) 4 { readSize := 2, stopAfter := 4 }).toOption.map
+      (fun o => (o.stream, o.got.bytes, o.got.eof, o.got.err)) = some (true, [104, 101, 108, 108], false, false) ∧
+    (streamResponse false 3 .stall false (H1.RT.respWire H1.RT.exFixed ++ [72, 84]) 4 { readSize := 2, stopAfter := 100 }).toOption.map
+      (fun o => (o.stream, o.got.bytes, o.got.eof, o.got.err)) = some (true, [104, 101, 108, 108, 111], true, false) := by
+  decide +kernel
+
+open Hertz.H1.RespStream in
+/-- the hypothesis `p ≤ Content-Length` of `stream_mode_same_response` holds for every prefetched length the code can
+produce (`prefetchOk`, checked per case on the implementation's value) when the peer sent no more than it declared -/
+theorem stream_prefetch_within_body (maxBody : Nat) (hd : RespHead) (s1 : Bytes) (p : Nat)
+    (h : prefetchOk maxBody hd s1 p = true) (hcl : 0 ≤ hd.cl) (hlen : s1.length ≤ hd.cl.toNat) : p ≤ hd.cl.toNat :=
+  prefetch_within maxBody hd s1 p h hcl hlen
+
+example : RespStream.prefetchOk 3 { cl := 5 } [104, 101, 108, 108, 111] 4 = true ∧ RespStream.prefetchOk 0 { cl := 5 } [104, 101, 108, 108, 111] 5 = true := by
+  decide
+
+open Hertz.H1.RespStream Hertz.H1.Stream in
+/-- **streaming = buffered, bodies framed by the end of the connection** (the peer closes) -/
+theorem stream_mode_same_response_until_close (dn : Bool) (maxBody : Nat) (s : Bytes) (p : Nat) (c : Consume)
+    (hd : RespHead) (s1 : Bytes) (r : Result)
+    (hh : readHeaders dn .eof s = .ok (hd, s1)) (hb : readResponse dn 0 .eof s = .ok r)
+    (hs : mustSkipCL hd.status = false) (hcl : hd.cl = -2) :
+    ∃ o, streamResponse dn maxBody .eof false s p c = .ok o ∧ SameAsBuffered r c o := by
+  unfold readResponse at hb; rw [hh] at hb
+  exact stream_same_identity dn maxBody s p c hd s1 r hh hb hs hcl
+
+open Hertz.H1.RespStream Hertz.H1.Stream in
+example : (streamResponse false 3 .eof false (H1.RT.exUntilClose.hdr.bytes ++ [1, 2, 3, 4, 5]) 5 { readSize := 2, stopAfter := 9 }).toOption.map
+      (fun o => (o.stream, o.got.bytes, o.got.eof, o.got.err)) = some (true, [1, 2, 3, 4, 5], true, false) := by
+  decide +kernel
+
+open Hertz.H1.RespStream Hertz.H1.Stream in
+/-- **streaming, chunked bodies**: for every well-formed chunked encoding `m` behind the head (`ChunkedMsg.Wf`: any
+chunking, size lines of 1..15 hex digits with blanks, ANY trailer section, anything behind it) the bytes read are a
+prefix of the de-chunked body (the body the strict decoder assigns: C14 `chunked_msg_is_spec_encoding`), never more
+than asked for; if no read failed they are exactly its first `stopAfter` bytes and EOF is reported iff the caller
+asked for more than the body; the head is the one `ReadHeaders` returned. -/
+theorem stream_mode_same_response_chunked (dn : Bool) (maxBody : Nat) (e : End) (s : Bytes) (p : Nat) (c : Consume)
+    (hd : RespHead) (m : ChunkedMsg) (rest : Bytes)
+    (hh : readHeaders dn e s = .ok (hd, m.bytes ++ rest)) (hs : mustSkipCL hd.status = false) (hcl : hd.cl = -1) (hm : m.Wf) :
+    ∃ o, streamResponse dn maxBody e false s p c = .ok o ∧ o.stream = true ∧ o.fault = false ∧ o.head = hd ∧
+      o.got.bytes <+: m.body ∧ o.got.bytes.length ≤ c.stopAfter ∧
+      (o.got.err = false → o.got.bytes = m.body.take c.stopAfter ∧ (o.got.eof = true ↔ m.body.length < c.stopAfter)) :=
+  stream_same_chunked dn maxBody e s p c hd m rest hh hs hcl hm
+
+open Hertz.H1.RespStream Hertz.H1.Stream in
+/-- with a positive buffer size and an empty trailer section no read of a well-formed chunked body fails -/
+theorem stream_chunked_no_read_error (dn : Bool) (maxBody : Nat) (e : End) (s : Bytes) (p : Nat) (c : Consume)
+    (hd : RespHead) (m : ChunkedMsg) (rest : Bytes)
+    (hh : readHeaders dn e s = .ok (hd, m.bytes ++ rest)) (hs : mustSkipCL hd.status = false) (hcl : hd.cl = -1) (hm : m.Wf)
+    (hr : 0 < c.readSize) (htr : m.trailer = [13, 10]) :
+    ∃ o, streamResponse dn maxBody e false s p c = .ok o ∧ o.got.err = false :=
+  stream_chunked_no_error dn maxBody e s p c hd m rest hh hs hcl hm hr htr
+
+open Hertz.H1.RespStream Hertz.H1.Stream in
+/-- non-vacuity: `exChunked` (`he`,`llo`) read in 2-byte pieces, stop after 3: `hel`; read to the end: `hello`, EOF -/
+example : (streamResponse false 0 .stall false (H1.RT.respWire H1.RT.exChunked ++ [72, 84]) 0 { readSize := 2, stopAfter := 3 }).toOption.map
+      (fun o => (o.stream, o.got.bytes, o.got.eof, o.got.err)) = some (true, [104, 101, 108], false, false) ∧
+    (streamResponse false 0 .stall false (H1.RT.respWire H1.RT.exChunked ++ [72, 84]) 0 { readSize := 2, stopAfter := 9 }).toOption.map
+      (fun o => (o.stream, o.got.bytes, o.got.eof, o.got.err)) = some (true, [104, 101, 108, 108, 111], true, false) := by
+  decide +kernel
+
+open Hertz.H1.RespStream in
+/-- **trailers after EOF**: what the stream object stores in `resp.Header.Trailer()` when the caller reaches the end of a
+chunked body (`trailersAtEOF`: `ReadTrailer` behind the last-chunk line, compared with the real client per case) is the
+trailer buffered mode returns for the same bytes, for every chunked response the buffered reader accepts -/
+theorem stream_trailers_after_eof (dn : Bool) (e : End) (s : Bytes) (hd : RespHead) (s1 : Bytes) (r : Result)
+    (hh : readHeaders dn e s = .ok (hd, s1)) (hb : readResponse dn 0 e s = .ok r)
+    (hs : mustSkipCL hd.status = false) (hcl : hd.cl = -1) :
+    trailersAtEOF dn e hd.trailer s1 = r.trailers := by
+  unfold readResponse at hb; rw [hh] at hb
+  exact trailersAtEOF_buffered dn e hd s1 r hb hs hcl
+
+open Hertz.H1.RespStream Hertz.H1.Stream in
+/-- non-vacuity: `exTrailers` read to the end through the stream: body `hello`, EOF, both trailer fields -/
+example : (streamResponse false 0 .stall false (H1.RT.respWireT H1.RT.exTrailers ++ [72]) 0 { readSize := 3, stopAfter := 9 }).toOption.map
+      (fun o => (o.got.bytes, o.got.eof, o.trailers)) =
+    some ([104, 101, 108, 108, 111], true, [([88, 45, 84], [111, 107]), ([88, 45, 83, 117, 109], [57])]) := by
+  decide +kernel
+
+open Hertz.H1.RespStream Hertz.H1.Stream in
+/-- **`MaxResponseBodySize` is not enforced in streaming mode**: limit 3, body `hello`: buffered mode refuses
+(`ErrBodyTooLarge`), streaming mode hands out all five bytes (the limit bounds the prefetch only) -/
+theorem stream_mode_limit_not_enforced :
+    (match readResponse false 3 .stall (H1.RT.respWire H1.RT.exFixed) with | .error .tooLarge => true | _ => false) = true ∧
+    (streamResponse false 3 .stall false (H1.RT.respWire H1.RT.exFixed) 4 { readSize := 8, stopAfter := 100 }).toOption.map
+      (fun o => (o.got.bytes, o.got.eof)) = some ([104, 101, 108, 108, 111], true) := by
+  decide +kernel
+
+open Hertz.H1.RespStream Hertz.H1.Stream in
+/-- the fault the model marks: a peer that sends more than it declared (`hello` + 2 bytes in one segment) with the
+declared length over the limit: 7 bytes are prefetched (admissible: `prefetchOk`), `offset` can pass `contentLength`
+(the Go code panics with slice bounds out of range; known finding `stream-prefetch-overread`) -/
+theorem stream_overread_fault_at :
+    (streamResponse false 3 .stall false (H1.RT.respWire H1.RT.exFixed ++ [72, 84]) 7 { readSize := 8, stopAfter := 100 }).toOption.map
+      (fun o => o.fault) = some true := by
+  decide +kernel
+
+open Hertz.H1.RespStream Hertz.H1.Stream in
+/-- **closing the stream keeps the pool clean** (`Content-Length` bodies): whatever the caller read (nothing, a part,
+all), whenever it closed the stream (`fin`), if the connection goes back to the idle pool at all then it holds
+exactly the bytes buffered mode would have left unread (`r.rest`) - so by `exchange_returns_own_response` the next
+exchange on it reads its own response whenever it would after a buffered exchange - and neither side had asked to
+close.  (When `skipRest` cannot reach the end of the body, or a read failed, the connection is closed instead.) -/
+theorem stream_close_keeps_pool_clean (cfg : Exchange.Cfg) (rq : Exchange.Req) (sv : Exchange.Srv) (c : Exchange.Conn)
+    (inPool : Bool) (p : Nat) (cs : Consume) (fin : Fin) (drained : Bool) (c' : Exchange.Conn) (o : SOutcome)
+    (hd : RespHead) (s1 : Bytes) (r : Result)
+    (h : attemptS cfg rq sv c inPool p cs fin drained = (some c', o))
+    (hsk : rq.skipBody = false ∧ rq.appSkip = false)
+    (hh : readHeaders cfg.disableNorm (Exchange.endOf (Exchange.serve c sv)) (Exchange.serve c sv).pending = .ok (hd, s1))
+    (hb : readResponse cfg.disableNorm 0 (Exchange.endOf (Exchange.serve c sv)) (Exchange.serve c sv).pending = .ok r)
+    (hs : mustSkipCL hd.status = false) (hcl : 0 ≤ hd.cl) (hp : p ≤ hd.cl.toNat) :
+    c'.pending = r.rest ∧ rq.connClose = false ∧ r.head.connClose = false := by
+  obtain ⟨ro, _, hro, hafter, hc1, hc2⟩ := attemptS_pooled cfg rq sv c inPool p cs fin drained c' o h
+  rw [hsk.1, hsk.2] at hro
+  obtain ⟨o', ho', hsame, ha⟩ := stream_mode_same_response cfg.disableNorm cfg.maxBody _ _ p cs hd s1 r hh hb hs hcl hp
+  have : ro = o' := by
+    have := hro.symm.trans ho'
+    simpa using this
+  subst this
+  rw [ha] at hafter
+  refine ⟨?_, hc1, ?_⟩
+  · rcases hafter with h1 | h1
+    · simpa using h1.symm
+    · cases h1
+  · rw [hsame.head]; simp only [RespRead.setContentLength]; split <;> simpa using hc2
+
+open Hertz.H1.RespStream Hertz.H1.Stream in
+/-- the same for chunked bodies: for a well-formed chunked message with a trailer section of field lines, a connection
+that goes back to the pool holds exactly what followed the message (`rest`) -/
+theorem stream_close_keeps_pool_clean_chunked (cfg : Exchange.Cfg) (rq : Exchange.Req) (sv : Exchange.Srv) (c : Exchange.Conn)
+    (inPool : Bool) (p : Nat) (cs : Consume) (fin : Fin) (drained : Bool) (c' : Exchange.Conn) (o : SOutcome)
+    (hd : RespHead) (m : ChunkedMsg) (ls : List Bytes) (rest : Bytes)
+    (h : attemptS cfg rq sv c inPool p cs fin drained = (some c', o))
+    (hsk : rq.skipBody = false ∧ rq.appSkip = false)
+    (hh : readHeaders cfg.disableNorm (Exchange.endOf (Exchange.serve c sv)) (Exchange.serve c sv).pending = .ok (hd, m.bytes ++ rest))
+    (hs : mustSkipCL hd.status = false) (hcl : hd.cl = -1) (hm : m.Wf)
+    (hls : ∀ l ∈ ls, TrFieldOk l) (htr : m.trailer = encTrailer ls) :
+    c'.pending = rest := by
+  obtain ⟨ro, _, hro, hafter, _, _⟩ := attemptS_pooled cfg rq sv c inPool p cs fin drained c' o h
+  rw [hsk.1, hsk.2] at hro
+  obtain ⟨o', ho', ha⟩ := stream_chunked_after cfg.disableNorm cfg.maxBody _ _ p cs hd m ls rest hh hs hcl hm hls htr
+  have : ro = o' := by
+    have := hro.symm.trans ho'
+    simpa using this
+  subst this
+  rw [ha] at hafter
+  split at hafter
+  · rcases hafter with h1 | h1 <;> cases h1
+  · split at hafter
+    · rcases hafter with h1 | h1
+      · simpa using h1.symm
+      · cases h1
+    · rcases hafter with h1 | h1
+      · cases h1
+      · simpa using h1.symm
+
+open Hertz.H1.RespStream Hertz.H1.Stream in
+/-- non-vacuity: the caller reads 2 of 5 bytes and closes; the connection goes back to the pool standing behind the body,
+and the next (streamed) exchange on it reads its own response -/
+example : ((exchangeS {} {} {} exBig 5 { readSize := 2, stopAfter := 2 } .close true).1.idle.map (·.pending)) = some [] ∧
+    ((exchangeS {} (exchangeS {} {} {} exBig 5 { readSize := 2, stopAfter := 2 } .close true).1 {} exSmall 2
+        { readSize := 8, stopAfter := 8 } .close true).1.dials) = 1 := by
+  decide +kernel
+
+/-! ## X11 part 2 — interim responses
+
+`resp.ReadHeaders` reads one head and, iff its status is exactly `100`, ONE more.  The request plays no role (no
+`Expect` test), so an unsolicited `100 Continue` is skipped like a solicited one.  Any other 1xx head (`102`, `103`,
+`101` without upgrade) and a SECOND `100` are returned as the final response (`MustSkipContentLength`: no body), and
+the real final response stays on the connection, which goes back to the pool: the NEXT exchange on it returns the
+response of this one (known finding `interim-1xx-taken-as-final`, reproduced on the real client in both modes;
+RFC 9110 §15.2: a client MUST be able to parse one or more 1xx responses before the final one). -/
+
+/-- **a `100 Continue` is skipped**: for every interim head a server can write with status 100 (any reason phrase
+without CR/LF, any well-formed field list), whatever follows (`X`: a conforming final response, a malformed one,
+nothing), under any limit and end behaviour: the reader returns for `interim ++ X` exactly what it returns for `X` -
+status, fields, body, trailers, unread rest, or the same error - provided `X` does not itself begin with a `100` head. -/
+theorem interim_skipped (dn : Bool) (maxBody : Nat) (e : End) (reason : Bytes) (fs : List (Bytes × Bytes)) (X : Bytes)
+    (hr : ∀ x ∈ reason, x ≠ 13 ∧ x ≠ 10) (h : H1.RT.wfFields dn fs = true) (herr : (H1.RT.scanned dn 100 fs).err = false)
+    (hfin : ∀ hd r, readHeader dn e X = .ok (hd, r) → hd.status ≠ 100) :
+    readResponse dn maxBody e (H1.RT.interim100 reason fs ++ X) = readResponse dn maxBody e X := by
+  unfold readResponse
+  rw [H1.RT.readHeaders_interim_final dn e reason fs X hr h herr hfin]
+
+/-- the same with `resp.SkipBody` (HEAD) and in streaming mode: all three readers share `ReadHeaders` -/
+theorem interim_skipped_any_mode (dn : Bool) (maxBody : Nat) (e : End) (reason : Bytes) (fs : List (Bytes × Bytes)) (X : Bytes)
+    (skip : Bool) (p : Nat) (c : Stream.Consume)
+    (hr : ∀ x ∈ reason, x ≠ 13 ∧ x ≠ 10) (h : H1.RT.wfFields dn fs = true) (herr : (H1.RT.scanned dn 100 fs).err = false)
+    (hfin : ∀ hd r, readHeader dn e X = .ok (hd, r) → hd.status ≠ 100) :
+    RespRead.readResponseSkip skip dn maxBody e (H1.RT.interim100 reason fs ++ X) = RespRead.readResponseSkip skip dn maxBody e X ∧
+    RespStream.streamResponse dn maxBody e skip (H1.RT.interim100 reason fs ++ X) p c = RespStream.streamResponse dn maxBody e skip X p c := by
+  constructor
+  · unfold RespRead.readResponseSkip
+    rw [H1.RT.readHeaders_interim_final dn e reason fs X hr h herr hfin]
+  · unfold RespStream.streamResponse
+    rw [H1.RT.readHeaders_interim_final dn e reason fs X hr h herr hfin]
+
+/-- non-vacuity: `HTTP/1.1 100 Continue` + `X-Note: go` in front of the 2-byte answer: hypotheses hold, the answer comes back -/
+example : H1.RT.wfFields false [([88, 45, 78, 111, 116, 101], [103, 111])] = true ∧
+    (H1.RT.scanned false 100 [([88, 45, 78, 111, 116, 101], [103, 111])]).err = false ∧
+    (readResponse false 0 .stall (H1.RT.interim100 [67, 111, 110, 116, 105, 110, 117, 101] [([88, 45, 78, 111, 116, 101], [103, 111])] ++ exSmall.resp)).toOption.map
+      (fun r => (r.head.status, r.body, r.rest)) = some (200, [104, 105], []) := by
+  decide +kernel
+
+/-- `HTTP/1.1 103 Early Hints` + `Link: </x>` -/
+def exEarlyHints : Bytes :=
+  H1.RT.statusLine 103 [69, 97, 114, 108, 121, 32, 72, 105, 110, 116, 115] ++ [13, 10] ++ HW.block [([76, 105, 110, 107], [60, 47, 120, 62])]
+
+/-- **false for other interim statuses**: `103 Early Hints` in front of the answer `hi`: the client returns status 103
+with an empty body and leaves the whole final response unread on the connection -/
+theorem interim_skipped_fails_at_103 :
+    ¬ ((readResponse false 0 .stall (exEarlyHints ++ exSmall.resp)).toOption.map (fun r => (r.head.status, r.body, r.rest)) =
+       (readResponse false 0 .stall exSmall.resp).toOption.map (fun r => (r.head.status, r.body, r.rest))) ∧
+    (readResponse false 0 .stall (exEarlyHints ++ exSmall.resp)).toOption.map (fun r => (r.head.status, r.body, r.rest)) =
+      some (103, [], exSmall.resp) := by
+  decide +kernel
+
+/-- **false for a second `100`**: only one is skipped -/
+theorem interim_skipped_fails_at_two_100 :
+    (readResponse false 0 .stall (H1.RT.interim100 [67] [] ++ (H1.RT.interim100 [67] [] ++ exSmall.resp))).toOption.map
+      (fun r => (r.head.status, r.body, r.rest)) = some (100, [], exSmall.resp) := by
+  decide +kernel
+
+/-- … and the consequence for the pool: the exchange answered `103 + first` returns 103, the NEXT exchange on the pooled
+connection (answered `hi`) returns the body `hello` of the first (one connection: `dials` = 1) -/
+theorem interim_103_poisons_pool :
+    (Exchange.run {} {} [({}, { resp := exEarlyHints ++ exBig.resp }), ({}, exSmall)]).map
+      (fun x => (x.1, match x.2 with | .ok r => (r.head.status, r.body) | _ => (0, []))) =
+      [(1, (103, [])), (1, (200, [104, 101, 108, 108, 111]))] := by
+  decide +kernel
+
+/-! ## X11 part 3 — hertz's part of the multipart/form-data writer (`Model/Multipart.lean`, `Spec/Multipart.lean`)
+
+`Multipart.wire b parts` = what `AddMultipartFormField` / `WriteMultipartFormFile` + `multipart.Writer` put on the wire
+(compared byte for byte with the real code by the op `mpwrite`); `Spec.Multipart.decode` = an independent decoder
+(delimiter lines, part headers, `name="…"` / `filename="…"` up to the closing quote).
+`CreateMultipartHeader` puts the field name and the file name between the quotes verbatim, so the round trip is FALSE
+for names containing `"`, CR or LF (`multipart_roundtrip_fails_at_*`: truncated name, smuggled `filename`, injected part
+header line; known finding `multipart-disposition-unescaped`, reproduced on the real writer and confirmed by
+`mime/multipart`'s reader); for all other inputs it is proved (`multipart_roundtrip`). -/
+
+/-- **multipart round trip**: for EVERY boundary `b` and EVERY list of parts (fields and files, any number, any sizes)
+whose names and file names contain none of `"` CR LF, whose content types contain no CR LF and do not begin with a
+blank, and whose contents do not contain (or run into) a delimiter `CRLF--b` (`Clean`: the first delimiter in
+`content ++ CRLF--b` is the appended one): the independent decoder reads the bytes hertz's writer produces
+(`Multipart.wire`: `CreateMultipartHeader` + `CreatePart` framing + closing delimiter) back to exactly the parts
+attached - names, file names (none for a blank one), types (none for an empty one), contents, in order. -/
+theorem multipart_roundtrip (b : Bytes) (ps : List Multipart.Part) (h : ∀ q ∈ ps, MultipartRT.Clean b q) :
+    Spec.Multipart.decode b (Multipart.wire b ps) = some (ps.map MultipartRT.intended) :=
+  MultipartRT.decode_wire b ps h
+
+/-- non-vacuity: the hypothesis holds for a file part whose content looks like a delimiter of another boundary and whose
+name contains `;`, `=` and a backslash -/
+example : MultipartRT.Clean [88, 121]
+    { name := [97, 59, 98, 61, 92], fileName := [102, 46, 116], ctype := [116, 47, 112], content := [13, 10, 45, 45, 88, 13, 10] } :=
+  ⟨by unfold MultipartRT.cleanVal; decide, by unfold MultipartRT.cleanVal; decide, by decide, by decide +kernel⟩
+
+/-- the round trip on a witness: a field, a file with type, a content that looks like a delimiter but is none -/
+theorem multipart_roundtrip_witness :
+    Spec.Multipart.decode [88, 121] (Multipart.wire [88, 121]
+      [{ name := [97], content := [49, 50] },
+       { name := [102], fileName := [102, 46, 116], ctype := [116, 47, 112], content := [13, 10, 45, 45, 88, 13, 10] },
+       { name := [101] }]) =
+    some [{ name := [97], fileName := none, ctype := none, content := [49, 50] },
+          { name := [102], fileName := some [102, 46, 116], ctype := some [116, 47, 112], content := [13, 10, 45, 45, 88, 13, 10] },
+          { name := [101], fileName := none, ctype := none, content := [] }] ∧
+    Spec.Multipart.decode [88, 121] (Multipart.wire [88, 121] []) = some [] := by
+  decide +kernel
+
+/-- **false for a name with a quote**: the field name `a"; filename="evil.sh` (no file name given) is read back as the
+field `a` WITH the file name `evil.sh` -/
+theorem multipart_roundtrip_fails_at_quote :
+    Spec.Multipart.decode [88, 121] (Multipart.wire [88, 121]
+      [{ name := [97, 34, 59, 32, 102, 105, 108, 101, 110, 97, 109, 101, 61, 34, 101, 118, 105, 108, 46, 115, 104], content := [49] }]) =
+    some [{ name := [97], fileName := some [101, 118, 105, 108, 46, 115, 104], ctype := none, content := [49] }] := by
+  decide +kernel
+
+/-- **false for a name with CR LF**: the field name `a␍␊Content-Type: text/html` (no type given) is read back as the field
+`a` … the part carries an injected `Content-Type: text/html"` header line -/
+theorem multipart_roundtrip_fails_at_crlf :
+    (Spec.Multipart.decode [88, 121] (Multipart.wire [88, 121]
+      [{ name := [97, 34, 13, 10, 67, 111, 110, 116, 101, 110, 116, 45, 84, 121, 112, 101, 58, 32, 116, 101, 120, 116, 47, 104, 116, 109, 108], content := [49] }])).map
+      (fun ps => ps.map (fun p => (p.name, p.ctype))) =
+    some [([97], some [116, 101, 120, 116, 47, 104, 116, 109, 108, 34])] := by
+  decide +kernel
 
 end Hertz.Props.C11
